@@ -29,6 +29,8 @@ Inductive case :=
         (bins : list nat)               (* cache_fft: which FFT bins the cached slices hold *)
 | CKeep (src : fs_src) (n : nat) (lb : float) (ub : option float)
         (kept : list nat)               (* filtered_fourier: one-sided bins left non-zero *)
+| CShared (d : option float) (rates used : list float)
+          (* one method dict handed to several analyzers: own rates in event order, method['Fs'] each ends up with *)
 | CCircle (omega : list float) (fs pi : float) (out : list float).   (* utils.circle_to_hz(omega, fs) *)
 
 Definition rtol : Q := 1 # 1000000000000.
@@ -82,6 +84,9 @@ Definition check (c : case) : bool :=
   | CKeep src n lb ub kept =>
       src_finite src && ffinite lb && opt_finite ub
       && natlist_eqb (ff_keep (src_fs src) n (f2q lb) (opt_f2q ub)) kept
+  | CShared d rates used =>
+      opt_finite d && forallb ffinite rates && forallb ffinite used
+      && close_list_tol rtol 0 (shared_dict_fs (opt_f2q d) (map f2q rates)) (map f2q used)
   | CCircle omega fs pi out =>
       forallb ffinite omega && ffinite fs && ffinite pi && forallb ffinite out
       && close_list_tol rtol (rtol * Qabsb (f2q fs))
